@@ -143,6 +143,16 @@ fn check_views_inner(what: &str, b: &BMOC) -> Result<Vec<MCell>, Violation> {
     if it.next().is_some() || itc.next().is_some() {
       return Err(Violation::new("views", "flat_iter_too_long", format!("{}: flat iterators yield more than deep_size items", what)));
     }
+    // exhausted iterators stay exhausted and keep describing an empty remainder (a consumer
+    // polling past the end -- chain, zip, a chunked drain -- must not see a phantom length)
+    for _ in 0..2 {
+      if it.size_hint() != (0, Some(0)) || itc.size_hint() != (0, Some(0)) {
+        return Err(Violation::new("views", "size_hint_after_end", format!("{}: exhausted flat iterators report size_hint {:?} / {:?}", what, it.size_hint(), itc.size_hint())));
+      }
+      if it.next().is_some() || itc.next().is_some() {
+        return Err(Violation::new("views", "flat_iter_too_long", format!("{}: an exhausted flat iterator yields an item again", what)));
+      }
+    }
   }
   Ok(cells)
 }
